@@ -676,7 +676,18 @@ def c10_concurrent(out, tier, seed):
                 prog[c_] = [rng.choice([pull(prefix), pull(prefix), peek(prefix), pull(prefix, 1)]) for _ in range(rng.randint(1, 3))]
         cfg = base_cfg(rng, rng.random() < 0.3, rng.choice(['absent', 'q2', 'qa']))
         jobs_rand.append((cfg, prog, rng.choice(['pct', 'random']), seed * 100000 + i, 0))
-    traces, verdicts = explore(out, jobs_dfs, jobs_rand)
+    # client orders generated by TLC from QueueConc (2 producers x 2 pushes, 2 consumers x 2 pulls), replayed on the real code
+    from .. import plans
+    pl, _ = plans.tlc_plans('QueueConcPlan.tla', 'QueueConcPlan.cfg', timeout=120, seed=seed)
+    rng.shuffle(pl)
+    names = {'p1': 1, 'p2': 2, 'c1': 3, 'c2': 4}
+    jobs_script = []
+    for p_ in pl[:(60 if tier == 'quick' else 2000)]:
+        order = [names[x] for x in p_['hist']]
+        prog = {1: [push(101), push(102)], 2: [push(201), push(202)], 3: [pull(), pull()], 4: [pull(), pull()]}
+        jobs_script.append((base_cfg(rng, False, 'absent'), prog, order, seed, 0))
+    out.notes['tlc_generated_queue_schedules_replayed'] = len(jobs_script)
+    traces, verdicts = explore(out, jobs_dfs, jobs_rand, scripted=jobs_script)
     report(out, 'C10', traces, verdicts, known_findings('C10'))
     out.notes['concurrent_queue_schedules'] = len(traces)
 
